@@ -418,7 +418,7 @@ def _field_lane(off, width, value, j):
 
 
 def _ptr(k):
-    return ("argptr", k, ())
+    return lanes.argptr(k)
 
 
 def chk_parent(ctx, m, cfg):
@@ -455,7 +455,7 @@ def chk_parent(ctx, m, cfg):
                     raise Shape("cellToParent returns a value that depends on the index beyond its resolution field")
                 if p.ret != exp_code:
                     wrongcode = F_or(wrongcode, p.cond)
-                st_ = p.stores.get((ok_, ()))
+                st_ = p.stored(ok_)
                 if exp_code != E_SUCCESS:
                     if st_ is not None:
                         wrongstore = F_or(wrongstore, p.cond)
@@ -511,7 +511,7 @@ def chk_centerchild(ctx, m, cfg):
                     raise Shape("cellToCenterChild returns an index-dependent code")
                 if p.ret != exp_code:
                     wrongcode = F_or(wrongcode, p.cond)
-                st_ = p.stores.get((ok_, ()))
+                st_ = p.stored(ok_)
                 if exp_code != E_SUCCESS:
                     if st_ is not None:
                         wrongstore = F_or(wrongstore, p.cond)
@@ -588,7 +588,7 @@ def chk_edge_origin(ctx, m, cfg):
                 raise Shape("getDirectedEdgeOrigin returns an index-dependent code")
             if p.ret != exp_code:
                 wrongcode = F_or(wrongcode, p.cond)
-            st_ = p.stores.get((ok_, ()))
+            st_ = p.stored(ok_)
             if exp_code == E_SUCCESS and p.ret == E_SUCCESS:
                 if st_ is None:
                     wrongstore = F_or(wrongstore, p.cond)
@@ -633,3 +633,248 @@ TEXT["indexops"] = ("R-BITPROV (index operations): the same lane-transducer inte
                     "_h3LeadingNonZeroDigit, isPentagon, _h3Rotate60ccw/cw, _h3RotatePent60ccw/cw, cellToParent, cellToCenterChild, makeDirectChild, "
                     "getDirectedEdgeOrigin return / store exactly the documented index (field-wise) and code for ALL index values per case.")
 FLOOR["indexops"] = 1
+
+
+# ====================================================================== child iteration (C04, C06): induction base and step
+def _ispent_model(pent_flag):
+    """documented meaning of isPentagon (decided for the real code by chk_ispentagon): base cell is a pentagon (case flag) and digits 1..res all 0"""
+    def model(ev, cargs, al, inst):
+        x = cargs[0]
+        if isinstance(x, int):
+            x = lanes.const_lv(x)
+        if not isinstance(x, LV) or x.off != 0:
+            raise Shape("isPentagon applied to a shifted value")
+        resf = LV(64, 0, x.tab, x.chain).masked(0xF << RES_OFF).concrete(al)
+        if resf is None:
+            raise Shape("isPentagon applied to an index whose resolution is not fixed by the case split")
+        res = resf >> RES_OFF
+        if not pent_flag:
+            return 0
+        mask = 0
+        for d in range(1, res + 1):
+            mask |= 7 << (3 * (15 - d))
+        z = x.masked(mask)
+        return BI(F_not(lanes.F_atom(lanes.Atom("nz", z))), 32)
+    return model
+
+
+def _iter_struct(m):
+    sk, hi = m.struct_field("IterCellsChildren", "h")
+    info = m.structs[sk]
+    offs = {}
+    for name in ("h", "_parentRes", "_skipDigit"):
+        _k, i = m.struct_field("IterCellsChildren", name)
+        offs[name] = info["fields"][i][1]
+    return offs
+
+
+def chk_iter_init(ctx, m, cfg):
+    offs = _iter_struct(m)
+    dummy = None
+    for fname in ("_iterInitParent", "iterInitParent"):
+        f = m.fn(fname)
+        dummy = f.blocks[0].insts[0]
+        hk, ck, ik = f.arg_index("h"), f.arg_index("childRes"), f.arg_index("iter")
+        wrapper = ik is None
+        if None in (hk, ck):
+            raise AnalysisBroken("%s: parameters h/childRes not found" % fname)
+        text = ("for res(h) <= childRes <= 15 and h != 0 the iterator starts at the smallest child: h with resolution = childRes and digits res(h)+1..childRes = 0, "
+                "_parentRes = res(h), _skipDigit = childRes if that cell is a pentagon else -1; otherwise the iterator is exhausted (h = 0)")
+        n = states = 0
+        bad = None
+        casetxt = ""
+        for res, allowed in _res_cases():
+            for cr in (-1, 16) + tuple(range(16)):
+                for pent in (False, True):
+                    ev = lanes.Evaluator(m, allowed)
+                    ev.models["isPentagon"] = _ispent_model(pent)
+                    args = [None] * len(f.args)
+                    args[hk], args[ck] = LV.input(), cr & 0xFFFFFFFF
+                    if not wrapper:
+                        args[ik] = lanes.argptr(ik)
+                    paths = ev.run(fname, args)
+                    valid = res <= cr <= 15
+
+                    def lane(j, x, cr=cr, res=res):
+                        if j <= 14:
+                            d = 15 - j
+                            if res < d <= cr:
+                                return 0
+                            if d > cr and x != 7:
+                                return None
+                            return x
+                        mk, vl = _field_lane(RES_OFF, RES_W, cr, j)
+                        return (x & ~mk & 7) | vl
+                    zmask = 0
+                    for d in range(1, res + 1):
+                        zmask |= 7 << (3 * (15 - d))
+                    lead_nz = lanes.F_atom(lanes.Atom("nz", LV.input().masked(zmask)))      # some digit 1..res(h) non-zero
+                    hzero = F_not(lanes.F_atom(lanes.Atom("nz", LV.input())))
+                    for p in paths:
+                        if wrapper:
+                            r = p.ret
+                            if not (isinstance(r, tuple) and r[0] == "agg" and len(r[1]) == 2 and isinstance(r[1][1], int)):
+                                raise Shape("iterInitParent does not return the iterator as {h, (parentRes, skipDigit)}")
+                            if offs["_parentRes"] != 8 or offs["_skipDigit"] != 12:
+                                raise Shape("IterCellsChildren layout changed")
+                            hv, pv, sv = r[1][0], r[1][1] & 0xFFFFFFFF, r[1][1] >> 32
+                        else:
+                            hv = ev.mem_load(p.mem, ("arg", ik), offs["h"], 8, dummy)
+                            sv = ev.mem_load(p.mem, ("arg", ik), offs["_skipDigit"], 4, dummy)
+                            pv = ev.mem_load(p.mem, ("arg", ik), offs["_parentRes"], 4, dummy)
+                        if hv is None or not isinstance(sv, int) or not isinstance(pv, int):
+                            raise Shape("%s leaves a field unwritten or index-dependent" % fname)
+                        h_is0 = F_const(hv == 0) if isinstance(hv, int) else F_not(lanes.F_atom(lanes.Atom("nz", hv)))
+                        fm = {}
+                        if not valid:
+                            fm["iterator not exhausted for an invalid child resolution"] = F_and(p.cond, F_not(h_is0))
+                        else:
+                            fm["iterator not exhausted for h = 0"] = F_and(p.cond, F_and(hzero, F_not(h_is0)))
+                            dl = lanes.F_atom(lanes.Atom("nz", lanes.diff_lv(hv, lane)))
+                            fm["iter.h is not the smallest child"] = F_and(p.cond, F_and(F_not(hzero), dl))
+                            if pv != res:
+                                fm["_parentRes is not res(h)"] = F_and(p.cond, F_not(hzero))
+                            ispent = F_and(F_const(pent), F_not(lead_nz))
+                            exp_c = F_and(ispent, F_const((sv & 0xFFFFFFFF) != (cr & 0xFFFFFFFF)))
+                            exp_m = F_and(F_not(ispent), F_const((sv & 0xFFFFFFFF) != 0xFFFFFFFF))
+                            fm["_skipDigit is not (childRes if pentagon else -1)"] = F_and(p.cond, F_and(F_not(hzero), F_or(exp_c, exp_m)))
+                        st, bad = lanes.decide(p.allowed, fm, SpecNone(list(fm)))
+                        states += st
+                        if bad:
+                            casetxt = ", childRes=%d, base cell %s a pentagon" % (cr, "is" if pent else "is not")
+                            break
+                    n += 1
+                    if bad:
+                        break
+                if bad:
+                    break
+            if bad:
+                break
+        _report(ctx, cfg, fname, "iter-init", f, n, states, bad, text, casetxt)
+
+
+def _succ_spec(c, p, s, pent):
+    """documented successor among the children of a resolution-p cell at resolution c, as a transducer with its own carry chain:
+    +1 on the digit string p+1..c in base 7; in a pentagon the value 1 in the skip digit s is skipped; carry out of digit p+1 = iteration over."""
+    jc, jtop = 15 - c, 14 - p          # lanes of digit c and digit p+1
+    js = 15 - s if pent else None
+    tab, cout = [], []
+    for j in range(NL):
+        t, co = [], []
+        for x in range(8):
+            for cin in (0, 1):
+                inc = cin + (1 if j == jc else 0)
+                if jc <= j <= jtop:
+                    v = x + inc
+                    if js == j and v == 1:
+                        t.append(2); co.append(0)
+                    elif v >= 7 and inc:
+                        t.append(v - 7); co.append(1)
+                    else:
+                        t.append(v & 7); co.append(0)
+                else:
+                    # outside the iterated digits: unchanged; an overflow is latched upwards
+                    t.append(x); co.append(cin if j > jtop else 0)
+        tab.append(tuple(t)); cout.append(tuple(co))
+    if c == p:       # no digit to iterate: the single child is the last one
+        ch = lanes.Chain(1, [tuple((cin if True else 0) for _x in range(8) for cin in (0, 1)) for _j in range(NL)])
+        return LV(64, 0, [tuple(x for x in range(8) for _c in (0, 1)) for _j in range(NL)], ch), ch
+    ch = lanes.Chain(0, cout)
+    return LV(64, 0, tab, ch), ch
+
+
+def _iter_step_cases():
+    """(childRes c, parentRes p, skipDigit s, pentagon?, allowed lanes) over all reachable iterator states"""
+    for c in range(16):
+        base = assume_field(free_lanes(), RES_OFF, RES_W, c)
+        for p in range(c + 1):
+            # hexagon parent: digits p+1..c in 0..6
+            al = [list(a) for a in base]
+            for d in range(p + 1, c + 1):
+                al[15 - d] = list(range(7))
+            yield c, p, -1, False, al
+            # pentagon parent, nothing skipped yet: digits p+1..c all zero, skip digit = c
+            al = [list(a) for a in base]
+            for d in range(p + 1, c + 1):
+                al[15 - d] = [0]
+            yield c, p, c, True, al
+            # pentagon parent, first non-zero digit at k (value 2..6), skip digit = k-1
+            for k in range(p + 1, c + 1):
+                al = [list(a) for a in base]
+                for d in range(p + 1, c + 1):
+                    al[15 - d] = [0] if d < k else (list(range(2, 7)) if d == k else list(range(7)))
+                yield c, p, k - 1, True, al
+
+
+def _iter_step_case(args):
+    c, p, s, pent, al = args
+    m, offs = _WM
+    fname = "iterStepChild"
+    f = m.fn(fname)
+    ev = lanes.Evaluator(m, al)
+    base = ("arg", 0)
+    dummy = f.blocks[0].insts[0]
+    mem = {}
+    mem = ev.mem_store(mem, base, offs["h"], LV.input(), 8, dummy)
+    mem = ev.mem_store(mem, base, offs["_parentRes"], p, 4, dummy)
+    mem = ev.mem_store(mem, base, offs["_skipDigit"], s & 0xFFFFFFFF, 4, dummy)
+    try:
+        paths = ev.run(fname, [lanes.argptr(0)], 0, mem)
+        S, ch = _succ_spec(c, p, s, pent)
+        over = lanes.F_atom(lanes.Atom("cfinal", None, ch))
+        skipped = F_const(False)
+        if pent and p < s <= c:
+            skipped = F_const(True) if s == c else lanes.F_atom(lanes.Atom("carryat", None, ch, 15 - s))
+        states = 0
+        for pth in paths:
+            hv = ev.mem_load(pth.mem, base, offs["h"], 8, dummy)
+            sv = ev.mem_load(pth.mem, base, offs["_skipDigit"], 4, dummy)
+            pv = ev.mem_load(pth.mem, base, offs["_parentRes"], 4, dummy)
+            if not isinstance(sv, int) or not isinstance(pv, int):
+                raise Shape("iterStepChild leaves an index-dependent _skipDigit/_parentRes")
+            hl = lanes.const_lv(hv) if isinstance(hv, int) else hv
+            if hl.off != 0:
+                raise Shape("iter.h is a shifted value")
+            h_nz = lanes.F_atom(lanes.Atom("nz", hl))
+            h_ne = lanes.F_atom(lanes.Atom("ne2", hl, S))
+            fm = {"the iterator is not exhausted after the last child": F_and(pth.cond, F_and(over, h_nz)),
+                  "iter.h is not the next child in index order": F_and(pth.cond, F_and(F_not(over), h_ne))}
+            if pv != p:
+                fm["_parentRes changes during the iteration"] = F_and(pth.cond, F_not(over))
+            exp_skip = F_and(skipped, F_const(sv != ((s - 1) & 0xFFFFFFFF)))
+            exp_keep = F_and(F_not(skipped), F_const(sv != (s & 0xFFFFFFFF)))
+            fm["_skipDigit is not moved exactly when the 1 of the skip digit was skipped"] = F_and(pth.cond, F_and(F_not(over), F_or(exp_skip, exp_keep)))
+            st, bad = lanes.decide(pth.allowed, fm, SpecNone(list(fm)))
+            states += st
+            if bad:
+                return 1, states, (bad[0], bad[1], bad[2], bad[3], (c, p, s, pent)), None
+    except Shape as e:
+        return 0, 0, None, "childRes=%d parentRes=%d skipDigit=%d: %s" % (c, p, s, e)
+    return 1, states, None, None
+
+
+def chk_iter_step(ctx, m, cfg):
+    fname = "iterStepChild"
+    f = m.fn(fname)
+    if len(f.args) != 1:
+        raise AnalysisBroken("iterStepChild: expected one parameter")
+    offs = _iter_struct(m)
+    text = ("from every reachable iterator state (h a child of a resolution-p cell at resolution c; _skipDigit = -1 for a hexagon parent, = c while all iterated "
+            "digits are 0, = k-1 once the first non-zero digit is at k for a pentagon parent) one step yields the next child in index order (+1 on the digits "
+            "p+1..c in base 7, skipping the value 1 in the skip digit) with the skip digit moved exactly when it skipped, and h = 0 after the last child")
+    cases = list(_iter_step_cases())
+    results = _pmap(_iter_step_case, cases, (m, offs))
+    for r in results:
+        if r[3]:
+            raise Shape(r[3])
+    bad = next((r[2] for r in results if r[2]), None)
+    casetxt = ""
+    if bad:
+        c, p, s, pent = bad[4]
+        casetxt = ", _parentRes=%d, _skipDigit=%d (%s parent)" % (p, s, "pentagon" if pent else "hexagon")
+        bad = bad[:4]
+    _report(ctx, cfg, fname, "iter-step", f, sum(r[0] for r in results), sum(r[1] for r in results), bad, text, casetxt)
+
+
+INDEXOPS["iter-init"] = (chk_iter_init, ["C04", "C06"])
+INDEXOPS["iter-step"] = (chk_iter_step, ["C04", "C06"])
